@@ -179,14 +179,16 @@ def main():
                 continue
             c = ref_cmp(a, b)
             for sp, opn in opsp.items():
-                for gap in ('', ' ', '  '):
+                # white space before the operator, between operator and version, and after the version does not belong to either
+                for lead, gap, trail in (('', '', ''), ('', ' ', ''), ('', '  ', ''), (' ', '', ''), ('\t', ' ', ''), ('', '', ' '), (' ', ' ', ' ')):
                     vc += 1
-                    got = version_compare(a, sp + gap + b)
+                    cond = lead + sp + gap + b + trail
+                    got = version_compare(a, cond)
                     exp = REF_HOLDS[opn](c)
                     outcome_classes.add(('vc', opn, exp))
                     if got is not exp:
-                        ck.violation('C19:version_compare:%s' % opn, 'version_compare(%r,%r) = %r, reference %r' % (a, sp + gap + b, got, exp),
-                                     {'a': a, 'cond': sp + gap + b})
+                        ck.violation('C19:version_compare:%s%s' % (opn, ':leading-white-space' if lead else ''),
+                                     'version_compare(%r,%r) = %r, reference %r' % (a, cond, got, exp), {'a': a, 'cond': cond})
     ck.part('version_compare', calls=vc)
 
     # ---- constraint lists ----
